@@ -617,7 +617,7 @@ def run(ctx):
         drv.close()
         ctx.merge_shard(res)
         return
-    n_scripts = ctx.scale(14, 150)
+    n_scripts = ctx.scale(60, 300)
     length = ctx.scale(60, 150)
     run_shards(ctx, shard, [(pid, ctx.tier, ctx.seed, i, n_scripts, length) for i in range(16)])
     if ctx.tier == "thorough":
